@@ -98,6 +98,43 @@ Section TrackerCb.
     - exists [], c, (map snd (filter (fun s => trk_event_eqb ev (fst s)) r)). repeat split; auto. intros c0 [].
   Qed.
 
+  (* the registration list: register_callback appends the pair (whatever was registered or removed before -- also the
+     same pair), remove_callback removes its first occurrence and nothing else *)
+  Lemma subscribers_attach b ev cb ev' :
+    subscribers (brk_attach b ev cb) ev' = subscribers b ev' ++ (if trk_event_eqb ev' ev then [cb] else []).
+  Proof.
+    unfold subscribers, brk_attach. rewrite filter_app, map_app. simpl. destruct (trk_event_eqb ev' ev); reflexivity.
+  Qed.
+
+  Lemma attach_subscribed b ev cb : In cb (subscribers (brk_attach b ev cb) ev).
+  Proof.
+    rewrite subscribers_attach. apply in_or_app. right. destruct ev; simpl; auto.
+  Qed.
+
+  Lemma detach_absent b ev cb : ~ In (ev, cb) b -> brk_detach b ev cb = b.
+  Proof.
+    induction b as [|[e c] r IH]; simpl; [reflexivity|]. intros N.
+    destruct (trk_event_eqb ev e && (cb =? c)) eqn:E.
+    - exfalso. apply N. left. apply andb_true_iff in E. destruct E as [E1 E2]. apply Z.eqb_eq in E2. subst c.
+      destruct ev, e; simpl in E1; try discriminate; reflexivity.
+    - f_equal. apply IH. intros I. apply N. now right.
+  Qed.
+
+  Lemma detach_last b ev cb : ~ In (ev, cb) b -> brk_detach (b ++ [(ev, cb)]) ev cb = b.
+  Proof.
+    induction b as [|[e c] r IH]; simpl; intros N.
+    - rewrite Z.eqb_refl. destruct ev; reflexivity.
+    - destruct (trk_event_eqb ev e && (cb =? c)) eqn:E.
+      + exfalso. apply N. left. apply andb_true_iff in E. destruct E as [E1 E2]. apply Z.eqb_eq in E2. subst c.
+        destruct ev, e; simpl in E1; try discriminate; reflexivity.
+      + f_equal. apply IH. intros I. apply N. now right.
+  Qed.
+
+  (* registered, removed, registered again: the pair is registered (once), behind everything else *)
+  Lemma reattach b ev cb : ~ In (ev, cb) b ->
+    brk_attach (brk_detach (brk_attach b ev cb) ev cb) ev cb = b ++ [(ev, cb)].
+  Proof. intros N. unfold brk_attach. now rewrite detach_last. Qed.
+
   Lemma propagate_quiet b (tr : track) ev : brkc_propagate trk_env_quiet b tr ev = (brk_propagate b tr ev, CbReturn).
   Proof.
     induction b as [|[d c] r IH]; simpl; [reflexivity|]. destruct (trk_event_eqb ev d); [|exact IH]. now rewrite IH.
